@@ -3,7 +3,8 @@ EXTENDS Spans, Json, IOUtils
 Obs == IF IOEnv.OBS = "" THEN <<>> ELSE ndJsonDeserialize(IOEnv.OBS)
 \* fault plantings: kind x host x prefix
 RenderFaults == {"undefined-var", "undefined-field", "math-on-string", "divide-by-zero", "filter-receiver", "filter-missing-arg", "iterate-scalar",
-                 "compare", "bad-subscript", "throw", "negate-string", "slice-step-zero", "component-missing-arg", "unknown-path-in-set", "across-newline", "spread-non-map", "in-scalar"}
+                 "compare", "bad-subscript", "throw", "negate-string", "slice-step-zero", "component-missing-arg", "unknown-path-in-set", "across-newline", "spread-non-map", "in-scalar",
+                 "set-block-first-filter"}
 SyntaxFaults == {"dangling-operator", "empty-if", "stray-endfor", "unterminated-string", "unknown-tag", "double-dot", "unclosed-expression", "unclosed-tag",
                  "missing-endif", "bad-filter-call", "assign-keyword", "unclosed-comment",
                  "unclosed-tag-nl", "unclosed-expression-nl", "missing-endif-nl", "unclosed-comment-nl"}
